@@ -376,6 +376,8 @@ def run(ctx):
     PANOC.attach(ctx, extra_oracle=on_run)
     ZEROFPR.attach(ctx, extra_oracle=on_run)
     PANTR.attach(ctx, extra_oracle=on_run)
+    from vf.props import FISTA
+    FISTA.attach(ctx, extra_oracle=on_run)
 
 def np_case(rq, o):
     """PANOC / ZeroFPR / FISTA runs that ended for a reason ranked below NoProgress or with NoProgress itself"""
